@@ -122,7 +122,7 @@ mod verif_kani {
     /// `check_expired_timeouts` re-queues it, so an event-driven runtime that sleeps until that
     /// instant neither wakes early nor loses the wake-up.
     #[kani::proof]
-    #[kani::unwind(4)]
+    #[kani::unwind(48)]
     #[kani::stub(std::hash::RandomState::new, stub_random_state)]
     fn c05_next_timeout_matches_expiry() {
         let timeout: i64 = kani::any();
